@@ -98,13 +98,12 @@ theorem direct_round_trip (hσ : ∀ k, σ k ≠ 0) {c c' c'' ca cb : Conv Rat} 
     (hp2 : CM.exec (findPath r.unit q.unit) { c' with st := ((c'.st.unprefixedUnit r.unit).1.unprefixedUnit q.unit).1 } = (.ok p2, cb))
     (hne2 : p2 ≠ []) :
     r2.mag.val = q.mag.val ∧ r2.unit = q.unit := by
-  obtain ⟨hg, ho⟩ := reach_graphOK hσ hr
+  obtain ⟨hg, ho, _⟩ := reach_graphOK hσ hr
   obtain ⟨hu, d, c2, hfp, hd⟩ := convert_direct_exact hσ hg hq ht ho h1
   rw [hp1] at hfp
   simp only [Prod.mk.injEq, Except.ok.injEq] at hfp
   obtain ⟨rfl, rfl⟩ := hfp
   obtain ⟨e1, g', f'⟩ := hd hne1
-  have hr' : Reach σ c' := Reach.direct hr hq ht h1 hp1 hne1
   have hq' := f'.lt hq
   have ht' : r.unit < c'.st.units.length := by rw [hu]; exact f'.lt ht
   obtain ⟨hu2, d2, c3, hfp2, hd2⟩ := convert_direct_exact hσ g' ht' hq' (by rw [f'.offsets]; exact ho) h2
@@ -133,7 +132,7 @@ theorem direct_route_independent (hσ : ∀ k, σ k ≠ 0) {c c₁ c₂ c₃ ca 
     (hp3 : CM.exec (findPath q.unit t) { c₂ with st := ((c₂.st.unprefixedUnit q.unit).1.unprefixedUnit t).1 } = (.ok p₃, cc))
     (hne3 : p₃ ≠ []) :
     r₃.mag.val = r₂.mag.val ∧ r₃.unit = r₂.unit := by
-  obtain ⟨hg, ho⟩ := reach_graphOK hσ hr
+  obtain ⟨hg, ho, _⟩ := reach_graphOK hσ hr
   obtain ⟨hu1, d, x, hfp, hd⟩ := convert_direct_exact hσ hg hq hb ho h1
   rw [hp1] at hfp
   simp only [Prod.mk.injEq, Except.ok.injEq] at hfp
